@@ -167,9 +167,15 @@ func c18LLMNR(c *h.Ctx) error {
 			defer close(g.ended)
 			switch <-g.cmd {
 			case "answer":
+				// the answer is taken from the REQUEST's own bytes as the handler sees them now, i.e. after other datagrams
+				// have arrived in the server's receive buffer: the additional record carries the request number
 				resp := llmnr.CreateResponseFromMessage(m)
+				last := byte(g.id)
+				if len(m.Additional) == 1 && len(m.Additional[0].RData) == 4 {
+					last = m.Additional[0].RData[3]
+				}
 				for _, q := range m.Questions {
-					resp.AddAnswerClassINTypeA(q.Name, fmt.Sprintf("10.0.0.%d", g.id))
+					resp.AddAnswerClassINTypeA(q.Name, fmt.Sprintf("10.0.0.%d", last))
 				}
 				w.WriteMessage(resp)
 			case "close":
@@ -213,6 +219,8 @@ func c18LLMNR(c *h.Ctx) error {
 				q.SetQuery()
 				q.ID = uint16(e.R)
 				q.AddQuestion(fmt.Sprintf("host%d", e.R), 1, llmnr.ClassIN)
+				q.Additional = append(q.Additional, llmnr.ResourceRecord{Name: fmt.Sprintf("host%d", e.R), Type: 1, Class: llmnr.ClassIN, RDLength: 4, RData: []byte{10, 0, 0, byte(e.R)}})
+				q.ARCount = 1
 				b, err := q.Encode()
 				if err != nil {
 					return err
